@@ -159,18 +159,26 @@ def finish(prop, tier, seed, level, coverage, assumptions, witnesses, t0, replay
         rp = write_replay(prop, 9000 + sorted(entries).index(kid), replay_of(ws[0]))
         print("KNOWN-FINDING: property=%s %s [%s] (%d witnesses, e.g. %s)" % (
             prop, entries[kid]["what"], kid, len(ws), rp))
-    # group unknown witnesses by (clause, features) so one defect gives one line
+    # one VIOLATION line per (clause, detail): the replay file holds the smallest witness and a
+    # summary of the descriptor features over all witnesses of the class
     groups = {}
     for w in unknown:
-        key = (w.get("clause"), tuple(sorted(w.get("features", []))), w.get("det", ""))
+        key = (w.get("clause"), w.get("det", ""))
         groups.setdefault(key, []).append(w)
     n = 0
-    for key, ws in sorted(groups.items(), key=lambda kv: (str(kv[0]), len(kv[1]))):
+    for key, ws in sorted(groups.items(), key=lambda kv: str(kv[0])):
         n += 1
         ws.sort(key=lambda w: w.get("size", 0))
-        rp = write_replay(prop, n, replay_of(ws[0]))
-        print("VIOLATION property=%s replay=%s clause=%s witnesses=%d features=%s" % (
-            prop, rp, key[0], len(ws), ",".join(key[1])))
+        payload = replay_of(ws[0])
+        feat = {}
+        for w in ws:
+            for f in w.get("features", []):
+                feat[f] = feat.get(f, 0) + 1
+        payload["witnesses_in_class"] = len(ws)
+        payload["feature_counts"] = dict(sorted(feat.items(), key=lambda kv: -kv[1])[:40])
+        rp = write_replay(prop, n, payload)
+        print("VIOLATION property=%s replay=%s clause=%s detail=%s witnesses=%d" % (
+            prop, rp, key[0], key[1], len(ws)))
     cov = dict(coverage)
     cov["known_finding_classes"] = sorted(known)
     cov["violation_classes"] = n
